@@ -462,3 +462,372 @@ Proof.
         split; [intros a c q [Hx|[]]; injection Hx as <- <- <-; auto|]. split; [iso_single|].
         split; [exact Hpend|]. repeat split; assumption.
 Qed.
+
+(* ================================================================== the whole run_once whose recv arm fires *)
+(* cleanup_accept_queue creates entries only for SYNs that were waiting in the backlog *)
+Definition only_syn_keys (s s' : dstate) (syns : list syn) : Prop :=
+  forall en, In en (d_streams s') ->
+    In en (d_streams s) \/ exists y, In y syns /\ se_key en = syn_key y.
+
+Lemma only_syn_keys_same s s' syns : d_streams s' = d_streams s -> only_syn_keys s s' syns.
+Proof. intros E en Hin. left. rewrite <- E. exact Hin. Qed.
+
+Lemma cleanup_loop_only_new : forall fuel s ev s' ev',
+  cleanup_loop fuel s ev = (s', ev') -> only_syn_keys s s' (d_syns s).
+Proof.
+  induction fuel as [|fuel IH]; intros s ev s' ev'; cbn [cleanup_loop].
+  { intro H; injection H as <- _. apply only_syn_keys_same. reflexivity. }
+  destruct (d_syns s) as [|y rest] eqn:Es.
+  { intro H; injection H as <- _. apply only_syn_keys_same. reflexivity. }
+  destruct (try_next_acceptor (upd_syns s rest)) as [s1 oa] eqn:Et.
+  destruct (try_next_same_tabs _ _ _ Et) as [(T1 & _) T2]. dsimpl.
+  destruct oa as [a|].
+  2:{ intro H; injection H as <- _. apply only_syn_keys_same. dsimpl. exact T1. }
+  destruct (match_syn_with_accept s1 y a) as [[s2 r] e] eqn:Em.
+  destruct (match_syn_exact _ _ _ _ _ _ Em) as (_ & M).
+  pose proof (match_syn_syns _ _ _ _ _ _ Em) as Hsy. rewrite T2 in Hsy.
+  destruct r; intro H.
+  - destruct M as (_ & _ & _ & M1 & _). apply IH in H. rewrite Hsy in H.
+    intros en Hin. destruct (H en Hin) as [Hin2|(y' & Hy' & Hk)].
+    + rewrite M1, T1 in Hin2. apply in_app_single in Hin2. destruct Hin2 as [Hin2| ->]; [left; exact Hin2|].
+      right. exists y. split; [left; reflexivity|reflexivity].
+    + right. exists y'. split; [right; exact Hy'|exact Hk].
+  - destruct M as (_ & M1 & _). injection H as <- _. apply only_syn_keys_same. dsimpl. congruence.
+  - destruct M as (_ & M1 & _). apply IH in H. unfold only_syn_keys in H. dsimpl. rewrite Hsy in H.
+    intros en Hin. destruct (H en Hin) as [Hin2|(y' & Hy' & Hk)].
+    + left. rewrite M1, T1 in Hin2. exact Hin2.
+    + right. exists y'. split; [right; exact Hy'|exact Hk].
+  - destruct M as (_ & M1 & _). apply IH in H. unfold only_syn_keys in H. dsimpl.
+    intros en Hin. destruct (H en Hin) as [Hin2|(y' & Hy' & Hk)].
+    + left. rewrite M1, T1 in Hin2. exact Hin2.
+    + right. exists y'. split; [rewrite Hsy in Hy'; exact Hy'|exact Hk].
+Qed.
+
+Lemma cleanup_only_new s s' e : cleanup_accept_queue s = (s', e) -> only_syn_keys s s' (d_syns s).
+Proof.
+  unfold cleanup_accept_queue. destruct (streams_full s).
+  - intro H; injection H as <- _. apply only_syn_keys_same. reflexivity.
+  - apply cleanup_loop_only_new.
+Qed.
+
+Lemma fwd_keys_app a b : fwd_keys (a ++ b) = fwd_keys a ++ fwd_keys b.
+Proof. unfold fwd_keys. apply flat_map_app. Qed.
+
+Lemma in_fwd_keys k e : In k (fwd_keys e) -> In (EvForward k) e.
+Proof.
+  unfold fwd_keys. intro H. apply in_flat_map in H. destruct H as (x & Hx & Hk).
+  destruct x; cbn in Hk; try contradiction. destruct Hk as [<-|[]]. exact Hx.
+Qed.
+
+Lemma all_accepted_fwd e : all_accepted e -> fwd_keys e = [].
+Proof.
+  intro H. destruct (fwd_keys e) as [|k r] eqn:E; [reflexivity|]. exfalso.
+  assert (Hin : In (EvForward k) e) by (apply in_fwd_keys; rewrite E; left; reflexivity).
+  unfold all_accepted in H. rewrite Forall_forall in H. exact (H _ Hin).
+Qed.
+
+Lemma count_rst_app a b : count_rst (a ++ b) = count_rst a + count_rst b.
+Proof. unfold count_rst. rewrite filter_app, app_length. lia. Qed.
+
+Lemma all_accepted_rst e : all_accepted e -> count_rst e = 0.
+Proof.
+  unfold count_rst. intro H. induction H as [|x l Hx Hl IH]; [reflexivity|]. cbn [filter].
+  destruct x; try contradiction; exact IH.
+Qed.
+
+Lemma count_rst_pos_in e : 0 < count_rst e -> exists a c q, In (EvSentRst a c q) e.
+Proof.
+  unfold count_rst. induction e as [|x l IH]; cbn [filter length]; [cbn; lia|].
+  destruct x; try (intro H; destruct (IH H) as (a & c & q & Hin); exists a, c, q; right; exact Hin).
+  intros _. eexists _, _, _. left. reflexivity.
+Qed.
+
+Lemma count_rst_nonneg e : 0 <= count_rst e.
+Proof. unfold count_rst. lia. Qed.
+
+Lemma is_own_key_iff addr om k :
+  is_own_key addr om k = true <-> exists m, om = Some m /\ k = {| k_addr := addr; k_conn := dm_conn m |}.
+Proof.
+  unfold is_own_key. destruct om as [m|].
+  - rewrite skey_eqb_eq. split; [intros ->; eauto|intros (m0 & E & ->); injection E as <-; reflexivity].
+  - split; [discriminate|intros (m0 & E & _); discriminate].
+Qed.
+
+Lemma is_syn_iff om : is_syn om = true <-> exists m, om = Some m /\ dm_type m = ST_SYN.
+Proof.
+  unfold is_syn. destruct om as [m|].
+  - rewrite ptype_eqb_iff. split; [eauto|intros (m0 & E & H); injection E as <-; exact H].
+  - split; [discriminate|intros (m0 & E & _); discriminate].
+Qed.
+
+(* everything the step predicate looks at, in plain terms *)
+Lemma run_once_recv_facts s pushes addr om s' e :
+  d_inv s -> dstep s (DoRunOnce pushes (ArmRecv addr om)) = (s', e) ->
+  (forall k0, In k0 (fwd_keys e) -> is_own_key addr om k0 = true) /\
+  (length (fwd_keys e) <= 1)%nat /\
+  (forall en, In en (d_streams s) -> is_own_key addr om (se_key en) = false -> In en (d_streams s')) /\
+  (forall en, In en (d_streams s') ->
+     In (se_key en) (keys (d_streams s)) \/ (exists y, In y (d_syns s) /\ se_key en = syn_key y) \/
+     may_create addr om (se_key en) = true) /\
+  (exists n, (n <= length (d_syns s))%nat /\
+     (d_syns s' = skipn n (d_syns s) \/
+      exists m, om = Some m /\ dm_type m = ST_SYN /\ d_syns s' = skipn n (d_syns s) ++ [syn_of addr m])) /\
+  count_rst e <= 1 /\ (0 < count_rst e -> is_syn om = true) /\
+  d_control s' = d_control s.
+Proof.
+  intros Hinv H.
+  destruct (run_once_decomp _ _ _ _ _ Hinv H) as (s1 & e1 & e3 & Ec & Ea & -> & Hinv1 & Hacc & Hfr & Hinv2 & Hsame).
+  destruct (cleanup_keeps _ _ _ Ec) as (_ & _ & _ & _ & _ & K6 & _).
+  pose proof (cleanup_only_new _ _ _ Ec) as Honly.
+  destruct (cleanup_serves_from_front _ _ _ Ec) as [n0 Hn0].
+  destruct (skipn_clip n0 (d_syns s)) as (n & Hn & Hclip). rewrite Hclip in Hn0.
+  destruct Hfr as [B1 B2 B3 B4 B5].
+  destruct Hsame as (P1 & P2 & P3 & P4 & P5 & _).
+  set (s2 := fold_left push_acceptor pushes s1) in *.
+  rewrite fwd_keys_app, (all_accepted_fwd _ Hacc), count_rst_app, (all_accepted_rst _ Hacc). cbn [app].
+  unfold arm_step in Ea. destruct om as [m|].
+  2:{ injection Ea as <- <-. cbn [fwd_keys flat_map app In length].
+      split; [intros k0 []|]. split; [lia|].
+      split; [intros en Hin _; rewrite P1; apply B4; exact Hin|].
+      split.
+      { intros en Hin. rewrite P1 in Hin. destruct (Honly en Hin) as [Hin0|Hy]; [left; apply in_map; exact Hin0|right; left; exact Hy]. }
+      split; [exists n; split; [exact Hn|left; congruence]|].
+      split; [cbn; lia|]. split; [cbn; lia|]. congruence. }
+  destruct (disp_isolation _ _ _ _ _ Hinv2 Ea) as (J1 & J2 & J3 & J4 & J5 & J6 & J7 & J8 & _).
+  set (k := {| k_addr := addr; k_conn := dm_conn m |}) in *.
+  split.
+  { intros k0 Hin. apply in_fwd_keys in Hin. destruct (J1 _ Hin) as (-> & _). apply is_own_key_iff. eauto. }
+  split.
+  { destruct (fwd_keys e3) as [|k0 r] eqn:E; [cbn; lia|].
+    assert (Hin : In (EvForward k0) e3) by (apply in_fwd_keys; rewrite E; left; reflexivity).
+    destruct (J1 _ Hin) as (_ & He3 & _). rewrite He3 in E. cbn in E. injection E as _ <-. cbn. lia. }
+  split.
+  { intros en Hin Hown. apply J2; [rewrite P1; apply B4; exact Hin|].
+    intro Hk. assert (Ht : is_own_key addr (Some m) (se_key en) = true) by (apply is_own_key_iff; eauto). congruence. }
+  split.
+  { intros en Hin. destruct (J3 en Hin) as [Hin2|(Hnone & _ & _ & _ & Hcase)].
+    - rewrite P1 in Hin2. destruct (Honly en Hin2) as [Hin0|Hy]; [left; apply in_map; exact Hin0|right; left; exact Hy].
+    - right; right. unfold may_create. destruct Hcase as [[Ht Hk]|[Ht Hk]]; rewrite Ht, Hk; apply skey_eqb_refl. }
+  split.
+  { exists n. split; [exact Hn|]. destruct J4 as [Hs|(Ht & _ & Hs & _)].
+    - left. congruence.
+    - right. exists m. split; [reflexivity|]. split; [exact Ht|]. rewrite Hs. congruence. }
+  split.
+  { destruct (Z.ltb_spec 0 (count_rst e3)) as [Hpos|Hle]; [|lia].
+    destruct (count_rst_pos_in _ Hpos) as (a & c & q & Hin). destruct (J5 _ _ _ Hin) as (_ & _ & -> & _). cbn. lia. }
+  split.
+  { intro Hpos. destruct (count_rst_pos_in e3 ltac:(lia)) as (a & c & q & Hin).
+    destruct (J5 _ _ _ Hin) as (Ht & _). apply is_syn_iff. eauto. }
+  congruence.
+Qed.
+
+(* ------------------------------------------------------------------ the extracted predicate holds of every model step *)
+Lemma obs_has_in s en : In en (d_streams s) -> obs_has (ob_streams (dobs_of s)) (se_key en, se_alive en) = true.
+Proof.
+  intro Hin. unfold obs_has, dobs_of; cbn [ob_streams]. apply existsb_exists.
+  exists (se_key en, se_alive en). split; [apply in_map_iff; exists en; auto|].
+  cbn [fst snd]. rewrite skey_eqb_refl, Bool.eqb_reflx. reflexivity.
+Qed.
+
+Lemma backlog_ok_suffix addr om pre n : (n <= length pre)%nat -> backlog_ok addr om pre (skipn n pre) = true.
+Proof.
+  intro Hn. unfold backlog_ok. apply existsb_exists. exists n. split; [apply in_seq; lia|].
+  rewrite syns_eqb_refl. reflexivity.
+Qed.
+
+Lemma backlog_ok_plus addr m pre n : (n <= length pre)%nat -> dm_type m = ST_SYN ->
+  backlog_ok addr (Some m) pre (skipn n pre ++ [syn_of addr m]) = true.
+Proof.
+  intros Hn Ht. unfold backlog_ok. apply existsb_exists. exists n. split; [apply in_seq; lia|].
+  assert (Hs : is_syn (Some m) = true) by (apply is_syn_iff; eauto). rewrite Hs.
+  cbv beta. change (hk_syn_of addr m) with (syn_of addr m). rewrite syns_eqb_refl. cbn [andb]. apply orb_true_r.
+Qed.
+
+Theorem c10_disp_step_ok_model s pushes addr om s' e :
+  d_inv s -> dstep s (DoRunOnce pushes (ArmRecv addr om)) = (s', e) ->
+  c10_disp_step_ok addr om (dstep_obs_of s e s') = true.
+Proof.
+  intros Hinv H.
+  destruct (run_once_recv_facts _ _ _ _ _ _ Hinv H) as (F1 & F2 & F3 & F4 & (n & Hn & F5) & F6 & F7 & F8).
+  unfold c10_disp_step_ok, dstep_obs_of; cbn [so_pre so_post so_fwd so_rsts].
+  repeat (apply andb_true_iff; split).
+  - apply forallb_forall. exact F1.
+  - apply Z.leb_le. lia.
+  - apply forallb_forall. intros p Hp. unfold dobs_of in Hp; cbn [ob_streams] in Hp.
+    apply in_map_iff in Hp. destruct Hp as (en & <- & Hin). cbn [fst].
+    destruct (is_own_key addr om (se_key en)) eqn:Eo; [reflexivity|]. cbn [orb].
+    apply obs_has_in. apply F3; assumption.
+  - apply forallb_forall. intros q Hq. unfold dobs_of in Hq; cbn [ob_streams] in Hq.
+    apply in_map_iff in Hq. destruct Hq as (en & <- & Hin). cbn [fst].
+    destruct (F4 en Hin) as [Hk|[(y & Hy & Hk)|Hc]].
+    + apply orb_true_iff; left. apply orb_true_iff; left. apply existsb_exists.
+      unfold keys in Hk. apply in_map_iff in Hk. destruct Hk as (en0 & Hk0 & Hin0).
+      exists (se_key en0, se_alive en0). split; [unfold dobs_of; cbn [ob_streams]; apply in_map_iff; exists en0; auto|].
+      cbn [fst]. apply skey_eqb_eq. exact Hk0.
+    + apply orb_true_iff; left. apply orb_true_iff; right. apply existsb_exists.
+      exists y. split; [exact Hy|]. rewrite hk_syn_key_eq. apply skey_eqb_eq. exact Hk.
+    + apply orb_true_iff; right. exact Hc.
+  - cbn [dobs_of ob_syns]. destruct F5 as [->|(m & -> & Ht & ->)];
+      [apply backlog_ok_suffix; exact Hn|apply backlog_ok_plus; assumption].
+  - destruct (is_syn om) eqn:Es.
+    + apply Z.leb_le. exact F6.
+    + apply Z.eqb_eq. pose proof (count_rst_nonneg e).
+      destruct (Z.ltb_spec 0 (count_rst e)) as [Hpos|Hle]; [|lia]. apply F7 in Hpos. congruence.
+  - cbn [dobs_of ob_ct]. rewrite F8. apply Z.eqb_refl.
+Qed.
+
+Lemma c10_disp_bounds_ok_model s : d_inv s ->
+  c10_disp_bounds_ok (d_max_streams s) (dobs_of s) = true.
+Proof.
+  intros (I1 & I2 & I3 & I4 & _). unfold c10_disp_bounds_ok.
+  repeat (apply andb_true_iff; split).
+  - rewrite keys_obs. apply nodupb_true. exact I1.
+  - unfold dobs_of; cbn [ob_streams]. rewrite map_length. apply Z.leb_le. exact I2.
+  - cbn [dobs_of ob_syns]. apply Z.leb_le. exact I3.
+  - cbn [dobs_of ob_ch]. apply Z.leb_le. exact I4.
+Qed.
+
+(* ================================================================== 3. all raw op lists *)
+Lemma rop_dop_total o : exists d, rop_dop o = Some d.
+Proof.
+  destruct o as [pushes addr bs|d]; cbn [rop_dop]; [|eauto].
+  pose proof (parse_raw_no_panic bs) as Hnp. destruct (parse_raw bs); [congruence|eauto|eauto].
+Qed.
+
+Lemma rstep_total s o : exists s' e, rstep s o = Some (s', e).
+Proof.
+  unfold rstep. destruct (rop_dop_total o) as [d ->]. destruct (dstep s d) as [s' e]. eauto.
+Qed.
+
+(* every raw op list runs to the end (no panic), and is an ordinary op list of the model *)
+Lemma rrun_is_drun : forall ops s, exists dops,
+  length dops = length ops /\ rrun s ops = Some (drun s dops).
+Proof.
+  induction ops as [|o r IH]; intros s; cbn [rrun].
+  - exists []. auto.
+  - unfold rstep. destruct (rop_dop_total o) as [d Hd]. rewrite Hd.
+    destruct (dstep s d) as [s1 e] eqn:Ed. destruct (IH s1) as (dops & Hl & Hr).
+    exists (d :: dops). split; [cbn [length]; congruence|]. cbn [drun]. rewrite Ed. exact Hr.
+Qed.
+
+Lemma rrun_inv : forall ops s, d_inv s ->
+  exists s', rrun s ops = Some s' /\ d_inv s' /\ d_max_streams s' = d_max_streams s.
+Proof.
+  intros ops s Hinv. destruct (rrun_is_drun ops s) as (dops & _ & Hr).
+  destruct (drun_inv dops s Hinv) as [A B]. eauto.
+Qed.
+
+Lemma accq_length s : (length (accq s) <= S (length (d_chan s)))%nat.
+Proof. unfold accq. rewrite app_length. destruct (d_next_acc s); cbn [length]; lia. Qed.
+
+Lemma dstate_new_max max_streams random : d_max_streams (dstate_new max_streams random) = max_streams.
+Proof. unfold dstate_new. destruct random; reflexivity. Qed.
+
+(* the static bounds, from any state satisfying the invariant ... *)
+Theorem disp_bounded_from s ops :
+  d_inv s ->
+  exists s', rrun s ops = Some s' /\ d_inv s' /\ d_max_streams s' = d_max_streams s /\
+    NoDup (keys (d_streams s')) /\
+    Z.of_nat (length (d_streams s')) <= Z.max 0 (d_max_streams s) /\
+    Z.of_nat (length (d_syns s')) <= ACCEPT_QUEUE_MAX_SYNS /\
+    Z.of_nat (length (d_chan s')) <= ACCEPT_QUEUE_MAX_ACCEPTORS /\
+    Z.of_nat (length (accq s')) <= ACCEPT_QUEUE_MAX_ACCEPTORS + 1 /\
+    (forall a, (length (pending s' a) <= MAX_CONNECTING_PER_ADDR)%nat) /\
+    Forall (fun p => length (snd p) = MAX_CONNECTING_PER_ADDR) (d_connecting s').
+Proof.
+  intro Hinv. destruct (rrun_inv ops s Hinv) as (s' & Hr & Hinv' & Hmax).
+  exists s'. split; [exact Hr|]. split; [exact Hinv'|]. split; [exact Hmax|].
+  pose proof Hinv' as (I1 & I2 & I3 & I4 & I5). rewrite Hmax in I2.
+  split; [exact I1|]. split; [exact I2|]. split; [exact I3|]. split; [exact I4|].
+  split; [pose proof (accq_length s'); lia|].
+  split; [intro a; apply (pending_le_4 s' a Hinv')|exact I5].
+Qed.
+
+(* ... and from a fresh dispatcher *)
+Theorem disp_bounded max_streams random ops :
+  exists s, rrun (dstate_new max_streams random) ops = Some s /\ d_inv s /\
+    d_max_streams s = max_streams /\
+    NoDup (keys (d_streams s)) /\
+    Z.of_nat (length (d_streams s)) <= Z.max 0 max_streams /\
+    Z.of_nat (length (d_syns s)) <= 32 /\
+    Z.of_nat (length (d_chan s)) <= 32 /\
+    Z.of_nat (length (accq s)) <= 33 /\
+    (forall a, (length (pending s a) <= 4)%nat) /\
+    Forall (fun p => length (snd p) = 4%nat) (d_connecting s).
+Proof.
+  destruct (disp_bounded_from (dstate_new max_streams random) ops (new_inv max_streams random))
+    as (s & A & B & C & D). rewrite dstate_new_max in C, D. exists s. auto.
+Qed.
+
+(* a raw datagram never grows what only local calls may grow: the control channel, the pending
+   connects, the connection-id counter; and it never makes the dispatcher send a SYN *)
+Theorem raw_step_local_state s pushes addr bs s' e :
+  d_inv s -> rstep s (RopRaw pushes addr bs) = Some (s', e) ->
+  d_control s' = d_control s /\ d_next_conn_id s' = d_next_conn_id s /\
+  d_dead_connectors s' = d_dead_connectors s /\
+  (forall a, (length (pending s' a) <= length (pending s a))%nat) /\
+  (forall a c q, ~ In (EvSentSyn a c q) e) /\ (forall t, ~ In (EvConnectErr t) e).
+Proof.
+  intros Hinv H.
+  assert (Hex : exists om, dstep s (DoRunOnce pushes (ArmRecv addr om)) = (s', e)).
+  { unfold rstep in H. cbn [rop_dop] in H. destruct (parse_raw bs) as [| |m]; [discriminate| |];
+      injection H as H; [exists None|exists (Some m)]; exact H. }
+  destruct Hex as [om Hd].
+  destruct (run_once_decomp _ _ _ _ _ Hinv Hd) as (s1 & e1 & e3 & Ec & Ea & -> & Hinv1 & Hacc & Hfr & Hinv2 & Hsame).
+  destruct (cleanup_keeps _ _ _ Ec) as (K1 & K2 & _ & _ & K5 & K6 & _).
+  destruct Hsame as (_ & P2 & _ & _ & P5 & P6 & _ & _ & _ & _ & _ & P12 & _).
+  set (s2 := fold_left push_acceptor pushes s1) in *.
+  assert (Harm : d_control s' = d_control s2 /\ d_next_conn_id s' = d_next_conn_id s2 /\
+                 d_dead_connectors s' = d_dead_connectors s2 /\
+                 (forall a, (length (pending s' a) <= length (pending s2 a))%nat) /\
+                 (forall a c q, ~ In (EvSentSyn a c q) e3) /\ (forall t, ~ In (EvConnectErr t) e3)).
+  { unfold arm_step in Ea. destruct om as [m|].
+    - destruct (disp_isolation _ _ _ _ _ Hinv2 Ea) as (J1 & _ & _ & _ & J5 & J6 & J7 & J8 & J9 & _ & J11 & _).
+      split; [exact J8|]. split; [exact J9|]. split; [exact J11|]. split.
+      { intro a. destruct (J7 a) as [->|(_ & _ & _ & c & m1 & m2 & -> & _ & ->)]; [lia|].
+        rewrite !app_length. cbn [length]. lia. }
+      split; [exact J6|].
+      intros t Hin. pose proof (on_recv_exact _ _ _ _ _ Hinv2 Ea) as Heff. unfold recv_effect in Heff.
+      destruct (find_stream s2 _) as [en|].
+      + destruct (se_alive en); destruct Heff as [_ ->]; destruct Hin as [Hx|[]]; discriminate.
+      + destruct (dm_type m); try (destruct Heff as [_ ->]; destruct Hin as [Hx|[]]; discriminate).
+        * destruct Heff as [[_ ->]|(c & m1 & m2 & _ & _ & _ & _ & _ & _ & _ & _ & _ & _ & _ & _ & _ & [(_ & -> & _)|(_ & -> & _)])];
+            destruct Hin as [Hx|[]]; discriminate.
+        * destruct Heff as (_ & _ & [(a & -> & _)|[(-> & _)|[(-> & _)|(-> & _)]]]);
+            try destruct Hin as [Hx|[]]; try discriminate; destruct Hin.
+    - injection Ea as <- <-. repeat split; auto.
+      + intros a c q [Hx|[]]; discriminate.
+      + intros t [Hx|[]]; discriminate. }
+  destruct Harm as (A1 & A2 & A3 & A4 & A5 & A6).
+  split; [congruence|]. split; [congruence|]. split; [congruence|].
+  split.
+  { intro a. rewrite <- (pending_same_connecting s s2 a) by congruence. apply A4. }
+  split.
+  - intros a c q Hin. apply in_app_or in Hin. destruct Hin as [Hin|Hin]; [|exact (A5 a c q Hin)].
+    pose proof (all_accepted_no_syn _ Hacc) as Hn. rewrite Forall_forall in Hn. exact (Hn _ Hin).
+  - intros t Hin. apply in_app_or in Hin. destruct Hin as [Hin|Hin]; [|exact (A6 t Hin)].
+    exact (all_accepted_no_err _ Hacc _ Hin).
+Qed.
+
+(* ------------------------------------------------------------------ the extracted predicate, every raw trace *)
+Lemma rtrace_ok max_streams : forall ops s,
+  d_inv s -> d_max_streams s = max_streams ->
+  c10_disp_trace_ok max_streams (rtrace s ops) = true /\ length (rtrace s ops) = length ops.
+Proof.
+  induction ops as [|o r IH]; intros s Hinv Hmax; cbn [rtrace]; [split; reflexivity|].
+  destruct (rop_dop_total o) as [d Hd]. rewrite Hd.
+  destruct (dstep s d) as [s1 e] eqn:Ed.
+  destruct (dstep_inv _ _ _ _ Hinv Ed) as [Hinv1 Hmax1].
+  destruct (IH s1 Hinv1 ltac:(congruence)) as [IH1 IH2].
+  split; [|cbn [length]; congruence].
+  unfold c10_disp_trace_ok in *. cbn [forallb fst snd]. rewrite IH1, andb_true_r.
+  apply andb_true_iff. split.
+  - unfold dstep_obs_of; cbn [so_post]. rewrite <- Hmax, <- Hmax1. apply c10_disp_bounds_ok_model. exact Hinv1.
+  - destruct d as [pushes [| |addr om]| | | | | | |]; try reflexivity.
+    eapply c10_disp_step_ok_model; eauto.
+Qed.
+
+Theorem c10_disp_trace_ok_model max_streams random ops :
+  c10_disp_trace_ok max_streams (rtrace (dstate_new max_streams random) ops) = true /\
+  length (rtrace (dstate_new max_streams random) ops) = length ops.
+Proof. apply rtrace_ok; [apply new_inv|apply dstate_new_max]. Qed.
